@@ -246,6 +246,10 @@ func c12Run(c Case) (Result, error) {
 			if !bytes.Equal(buf, ref) {
 				complaint = "GeneratePrivateKey wrote to the caller's seed buffer"
 			}
+			// ... and the buffer is the caller's again afterwards: overwritten before the key is looked at
+			for i := range buf {
+				buf[i] ^= 0x3c
+			}
 			// second call on a fresh copy of the seed
 			sk2, err2 = crypto.GeneratePrivateKey(alg, append([]byte{}, input...))
 			if len(input) == 0 {
@@ -272,7 +276,11 @@ func c12Run(c Case) (Result, error) {
 			}
 		} else {
 			kind = 1
-			sk, err = crypto.DecodePrivateKey(alg, input)
+			in1 := append([]byte{}, input...)
+			sk, err = crypto.DecodePrivateKey(alg, in1)
+			for i := range in1 {
+				in1[i] ^= 0x3c // the decoded key is a value: its input buffer is overwritten
+			}
 			sk2, err2 = crypto.DecodePrivateKey(alg, append([]byte{}, input...))
 		}
 	})
